@@ -328,6 +328,8 @@ EXTRA_TREES = [
     "[2] U [901]", "([2] U [901]) O ([1] U [902])", "[101] U [1][901]", "[101] U [501][901]", "[1][932] O [2][933]", "[501] U [931]",
     "[1] U [2] U [3] U [4]", "[1] O ([2] X ([3] U [4]))", "(([1] U [2]) O [3]) X [4]", "[1][901] U [2][902] U [3][903]",
     "[2000] U [2499][901]", "[499] O [1]", "[1] U [900] U [500]", "[999][1] X [2]",
+    # a format constraint attached to an operand that carries its own attached constraint (nested attachments, both orders)
+    "[901]([1][902])", "([1][902])[901]", "[901]([1][902]) U [3]", "([1][902] U [3])[901]", "[903]([1][901] O [3][902])",
 ]
 
 
